@@ -41,6 +41,19 @@ type request struct {
 
 func (q request) id() string { return q.Method + " " + q.Mux + ":" + q.Path + " [" + q.Label + "]" }
 
+// the first event of every non-empty log the harness builds, so that queries can name an event that exists
+var knownEvent = []byte("known-event")
+
+func knownKey() string {
+	b, _ := json.Marshal(knownEvent)
+	return string(b)
+}
+
+func knownDigest() string {
+	b, _ := json.Marshal([]byte(hashing.NewSha256Hasher().Do(knownEvent)))
+	return string(b)
+}
+
 func b64(n int) string {
 	b, _ := json.Marshal(bytes.Repeat([]byte{0xAB}, n))
 	return string(b)
@@ -85,7 +98,8 @@ func objBodies(valid map[string]string, fields []field) map[string]string {
 	return out
 }
 
-var numbers = map[string]string{"0": "0", "3": "3", "4": "4", "2^63-1": "9223372036854775807", "2^63": "9223372036854775808", "2^64-1": "18446744073709551615", "-1": "-1", "1e30": "1e30", "null": "null", "string": "\"x\"", "object": "{}"}
+// "$N" is replaced at delivery time by the number of events in the log ($N-1 = the current version)
+var numbers = map[string]string{"n-1": "$N-1", "n": "$N", "n+1": "$N+1", "0": "0", "3": "3", "4": "4", "2^63-1": "9223372036854775807", "2^63": "9223372036854775808", "2^64-1": "18446744073709551615", "-1": "-1", "1e30": "1e30", "null": "null", "string": "\"x\"", "object": "{}"}
 
 func digests() map[string]string {
 	m := map[string]string{"null": "null", "number": "7", "array": "[1]", "not base64": "\"!!\""}
@@ -111,9 +125,9 @@ func alphabet() []request {
 		{"api", "/info/shards", "GET", nil},
 		{"api", "/unknown", "GET", nil},
 		{"api", "/events", "POST", objBodies(map[string]string{"event": b64(12)}, []field{{"event", map[string]string{"null": "null", "empty": "\"\"", "number": "7", "array": "[]", "large": b64(100000)}}})},
-		{"api", "/events/bulk", "POST", objBodies(map[string]string{"events": "[" + b64(5) + "," + b64(6) + "]"}, []field{{"events", map[string]string{"null": "null", "empty list": "[]", "one empty element": "[\"\"]", "one null element": "[null]", "2000 elements": bigEvents, "string": "\"x\"", "object": "{}", "duplicates": "[" + b64(5) + "," + b64(5) + "]"}}})},
-		{"api", "/proofs/membership", "POST", objBodies(map[string]string{"key": b64(12), "version": "0"}, []field{{"key", map[string]string{"null": "null", "empty": "\"\"", "number": "1"}}, {"version", numbers}})},
-		{"api", "/proofs/digest-membership", "POST", objBodies(map[string]string{"keyDigest": b64(32), "version": "0"}, []field{{"keyDigest", digests()}, {"version", numbers}})},
+		{"api", "/events/bulk", "POST", objBodies(map[string]string{"events": "[" + b64(5) + "," + b64(6) + "]"}, []field{{"events", map[string]string{"null": "null", "empty list": "[]", "one empty element": "[\"\"]", "one null element": "[null]", "2000 elements": bigEvents, "string": "\"x\"", "object": "{}", "duplicates": "[" + b64(5) + "," + b64(5) + "]", "the same event three times": "[" + b64(7) + "," + b64(7) + "," + b64(7) + "]", "the same event five times among others": "[" + b64(9) + "," + b64(3) + "," + b64(9) + "," + b64(9) + "," + b64(4) + "," + b64(9) + "," + b64(9) + "]", "an event that is already in the log, twice": "[" + knownKey() + "," + knownKey() + "]"}}})},
+		{"api", "/proofs/membership", "POST", objBodies(map[string]string{"key": knownKey(), "version": "0"}, []field{{"key", map[string]string{"null": "null", "empty": "\"\"", "number": "1", "never added": b64(12)}}, {"version", numbers}})},
+		{"api", "/proofs/digest-membership", "POST", objBodies(map[string]string{"keyDigest": knownDigest(), "version": "0"}, []field{{"keyDigest", digests()}, {"version", numbers}})},
 		{"api", "/proofs/incremental", "POST", objBodies(map[string]string{"start": "0", "end": "0"}, []field{{"start", numbers}, {"end", numbers}})},
 		{"mgmt", "/backup", "POST", nil},
 		{"mgmt", "/backups", "GET", nil},
@@ -162,14 +176,15 @@ func less(a, b request) bool {
 // ---------------------------------------------------------------- the server under test
 
 type server struct {
-	r      *ev.Run
-	c      *nx.Child
-	db, rf string
-	n      int // events added by the harness (probe + setup)
-	snaps  map[uint64]*protocol.Snapshot
-	seq    int
-	base   string
-	gen    int
+	r        *ev.Run
+	c        *nx.Child
+	db, rf   string
+	n        int // events added by the harness (probe + setup)
+	snaps    map[uint64]*protocol.Snapshot
+	seq      int
+	base     string
+	gen      int
+	useKnown bool
 }
 
 func (s *server) fresh(logSize int) bool {
@@ -191,6 +206,7 @@ func (s *server) fresh(logSize int) bool {
 	}
 	s.c, s.n, s.snaps = c, 0, map[uint64]*protocol.Snapshot{}
 	for i := 0; i < logSize; i++ {
+		s.useKnown = i == 0
 		if ok, _ := s.add(); !ok {
 			return false
 		}
@@ -201,6 +217,9 @@ func (s *server) fresh(logSize int) bool {
 func (s *server) add() (bool, string) {
 	s.seq++
 	evt := []byte(fmt.Sprintf("probe-%d-%d", s.gen, s.seq))
+	if s.useKnown {
+		evt, s.useKnown = knownEvent, false
+	}
 	b, _ := json.Marshal(protocol.Event{Event: evt})
 	res, err := s.c.HTTP("api", "POST", "/events", b)
 	if err != nil {
@@ -258,7 +277,15 @@ func (s *server) add() (bool, string) {
 
 // deliver sends one request and evaluates the oracles that do not need a probe.
 func (s *server) deliver(q request, ctx string) (alive bool, res nx.Resp) {
-	res, err := s.c.Do(nx.Req{Op: "http", Mux: q.Mux, Method: q.Method, Path: q.Path, Body: q.body, NoBody: q.nobody})
+	body := q.body
+	if bytes.Contains(body, []byte("$N")) {
+		st, _ := s.c.Do(nx.Req{Op: "state"})
+		n := int64(st.Version)
+		body = bytes.ReplaceAll(body, []byte("$N-1"), []byte(fmt.Sprint(n-1)))
+		body = bytes.ReplaceAll(body, []byte("$N+1"), []byte(fmt.Sprint(n+1)))
+		body = bytes.ReplaceAll(body, []byte("$N"), []byte(fmt.Sprint(n)))
+	}
+	res, err := s.c.Do(nx.Req{Op: "http", Mux: q.Mux, Method: q.Method, Path: q.Path, Body: body, NoBody: q.nobody})
 	s.r.Eval(1)
 	det := map[string]interface{}{"request": q, "context": ctx}
 	if err != nil {
